@@ -9,20 +9,23 @@ TARGETS = ["Base/Corr.vo", "Base/Fl.vo", "Base/Num.vo", "C01/Model.vo", "C01/Mod
            "C08/SpecTest.vo", "C08/Props.vo"]
 PROPS = ["C08/Props.v"]
 PARTIAL = ("Scalar theorems are about the shared register-file model coq/C01/Model.v, for an ARBITRARY carrier (floats "
-           "included): closed form of both combinators for every receiver, receiver independence of every single-step "
-           "operation under the computed side condition [keeps], Set/Min/Max/Abs under [set_ok], the composite programs "
-           "Logistic, Sigmoid, Log1pExp (branches 1,2,4), LogAdd/LogSub with the receiver as an operand; refuted with "
-           "witnesses: mixed-order alias (F-ALLOC), Log1pExp third branch. Matrix product on the heap/header model of "
-           "coq/C10/Model.v over Z: r = a and r = b proved for well-formed headers in separate storage; r = a = b, "
-           "r = b.T(), r = a.T(), r = a with b in the same backing array: refuted. Element-wise vector operations: "
-           "identical and left-shifted receivers proved, right-shifted refuted. NOT proved: matrix views that are "
-           "disjoint slices of one backing array (tied by the correspondence and the hunt only), Real64 matrix "
-           "derivatives, sparse containers (C03's model, identical-object aliasing only), reductions with the receiver "
-           "inside the vector (Vmean, SmoothMax ...).")
+           "included, no ring law used): closed form of both combinators for every receiver, receiver independence of every "
+           "single-step operation (20 one-operand ops, Add Sub Mul Div Pow Sqrt) under the computed side condition [keeps], "
+           "Set/Min/Max/Abs under [set_ok], the multi-step programs Logistic, Sigmoid, Log1pExp (branches v<=18, v>33.3), "
+           "LogAdd/LogSub with the receiver among the operands; refuted with witnesses: mixed-order alias (F-ALLOC), "
+           "Log1pExp branch 18<v<=33.3. Matrix product on the heap/header model coq/C10/Model.v over Z, all well-formed "
+           "views: r = a and r = b proved when the other factor lives in another backing array; r = a = b, r = b.T(), "
+           "r = a.T(), r = a with b in the same backing array: refuted. Element-wise matrix ops: identical views / other "
+           "arrays proved, transposed receiver refuted. Element-wise vector ops on slices: identical, left-shifted and "
+           "disjoint receivers proved, right-shifted refuted. MdotV/VdotM: rejection proved, shifted overlap refuted. NOT "
+           "proved (correspondence + hunt only): operands that are DISJOINT views of the receiver's backing array for the "
+           "matrix operations, derivatives carried by Real64 matrix products (values only), sparse containers, reductions "
+           "(Vmean, VdotV, Vnorm, Mtrace, Mnorm, SmoothMax, LogSmoothMax) with the receiver or a temporary inside the "
+           "vector, a scratch argument that is also an operand (characterised by the model and counted by the hunt).")
 CORPUS = os.path.join(vlib.ROOT, "corpus/C08/corpus.jsonl")
 
 # hunt sites that are defects owned by other properties' known findings (referenced, not duplicated)
-REFERENCED = {"alloc-diffN": "F-C20-DYADIC-ALLOC", "set-order-before-alloc": "F-SETORD"}
+REFERENCED = {"alloc-diffN": "F-C20-DYADIC-ALLOC", "set-order-before-alloc": "F-SETORD", "ABS(concrete)": "F-ABSC"}
 
 
 def all_known():
@@ -128,7 +131,7 @@ def run(ctx):
                 ctx.known_finding(kf["id"], kf["what"])
         else:
             unknown.append(hit)
-    for hit in unknown:
+    for hit in unknown[:5]:
         ctx.violation({"hunt": hit, "failure": hit["failure"],
                        "broken": [f["target"] for f in failures] + (["correspondence (model vs implementation)"] if bad else [])},
                       True, "result depends on the receiver aliasing an operand (%s): %s" % (hit["site"], hit["failure"]))
